@@ -54,7 +54,12 @@ PATCHES = [
     ("failing", [{"op": "remove", "path": "/zz"}]), ("failing", [{"op": "add", "path": "/a/9", "value": 1}]), ("failing", [{"op": "move", "from": "/a", "path": "/a/0/x"}]), ("failing", [{"op": "nop", "path": "/a"}]),
     ("failing", [{"op": "add", "value": 1}]), ("failed-test", [{"op": "test", "path": "/b/d", "value": 2}]), ("failed-test", [{"op": "add", "path": "/x", "value": 1}, {"op": "test", "path": "/x", "value": True}]),
     ("not-a-list", {"op": "add", "path": "/x", "value": 1}), ("malformed-json", None),
+    ("malformed-elements", [1]), ("malformed-elements", [None]), ("malformed-elements", ["add"]), ("malformed-elements", [[{"op": "add", "path": "/z", "value": 1}]]),
+    ("malformed-elements", [{"op": "add", "path": "/z", "value": 1}, 7]), ("malformed-elements", [{"op": "add", "path": 5, "value": 1}]), ("malformed-elements", [{"path": "/a"}]),
 ]
+
+
+REJECT_LABELS = {"syntax", "type", "name", "index", "unresolvable", "malformed", "failing", "failed-test", "not-a-list", "malformed-json", "malformed-elements"}
 
 
 def plan(tier, seed):
@@ -167,8 +172,14 @@ def check(ctx, files, cmd, label, expr, doc_ok, opts, use_subprocess, repo):
     ctx.case(h(cmd, expr_text, doc_ok, sorted(opts.items()), use_subprocess))
     want = library_outcome(cmd, expr_text, doc_text, opts)
     if want[0] == "foreign":
-        ctx.count("skipped_library_raised_foreign")
-        return
+        # the library raised something outside its own families.  For an input class the
+        # statement lists as rejected the tool must still reject it cleanly; otherwise the
+        # case says nothing about the front end (that is C06's concern) and is skipped.
+        must_reject = (not doc_ok) or (label in REJECT_LABELS and not (label == "type" and opts["no_type_checks"]))
+        if not must_reject:
+            ctx.count("skipped_library_raised_foreign")
+            return
+        want = ("reject", "foreign:" + want[1])
     if use_subprocess:
         status, out, err, exc = run_cli_subprocess(argv, stdin_text, repo)
         ctx.count("subprocess_invocations")
